@@ -18,8 +18,8 @@ ID = "C18"
 CASES = {"quick": 3000, "thorough": 40000}
 FLOOR = {"quick": 2700, "thorough": 36000}
 FLOOR_COUNTERS = {
-    "quick": {"reused_linear_estimator_objects": 250, "competitors_tried": 25000, "planted_maps": 400, "padded_fits": 1200, "projector_fits": 1200, "estimators_with_a_past": 900, "one_dimensional_targets": 50, "other_units": 600, "configured_by_attribute_assignment": 1000, "edge_shapes": 600, "reduced_space_checks": 900, "more_than_1024_samples": 30, "planted_rotations_near_identity": 150},
-    "thorough": {"reused_linear_estimator_objects": 3500, "competitors_tried": 350000, "planted_maps": 7000, "padded_fits": 16000, "projector_fits": 16000, "estimators_with_a_past": 12000, "one_dimensional_targets": 700, "other_units": 8000, "configured_by_attribute_assignment": 14000, "edge_shapes": 8000, "reduced_space_checks": 12000, "more_than_1024_samples": 500, "planted_rotations_near_identity": 2000},
+    "quick": {"reused_linear_estimator_objects": 250, "competitors_tried": 25000, "planted_maps": 400, "padded_fits": 1200, "projector_fits": 1200, "estimators_with_a_past": 900, "one_dimensional_targets": 50, "other_units": 600, "configured_by_attribute_assignment": 1000, "edge_shapes": 600, "reduced_space_checks": 900, "more_than_1024_samples": 30, "planted_rotations_near_identity": 150, "numpy_bool_flags": 600, "rejected_calls_in_the_history": 100},
+    "thorough": {"reused_linear_estimator_objects": 3500, "competitors_tried": 350000, "planted_maps": 7000, "padded_fits": 16000, "projector_fits": 16000, "estimators_with_a_past": 12000, "one_dimensional_targets": 700, "other_units": 8000, "configured_by_attribute_assignment": 14000, "edge_shapes": 8000, "reduced_space_checks": 12000, "more_than_1024_samples": 500, "planted_rotations_near_identity": 2000, "numpy_bool_flags": 8000, "rejected_calls_in_the_history": 1300},
 }
 RULE = (
     "case = X (n 6-40, f 1-8), y (p 1-8; noisy linear, pure noise, or planted y = X A with A a (partial) isometry), mode "
@@ -95,6 +95,8 @@ def gen(rng, tier, index):
         "many": bool(many),
         "near_identity": bool(kind == "planted" and A is not None and p == f and f > 1 and float(np.abs(A - np.eye(f)).max()) < 1e-4),
         "carry": gens.pick(rng, forms.CARRY),
+        "aborted_fit": bool(rng.random() < 0.5),
+        "npflag": bool(rng.random() < 0.3),
         "how": gens.pick(rng, ("ctor", "ctor", "setattr", "setattr_after_decoy")),
         "units": [ux, uy],
         "y1d": bool(p == 1 and rng.random() < 0.6),
@@ -111,7 +113,8 @@ def gen(rng, tier, index):
 
 
 def _linear(kind):
-    from sklearn.linear_model import LinearRegression, Ridge
+    from ..pc import AbortableLinearRegression as LinearRegression
+    from ..pc import AbortableRidge as Ridge
 
     return {"none": None, "lr": LinearRegression(), "lr_noint": LinearRegression(fit_intercept=False), "ridge": Ridge(alpha=1e-3)}[kind]
 
@@ -137,14 +140,17 @@ def run(case, j):
         decoy.fit(rng.normal(size=X.shape), rng.normal(size=y.shape))
         j.note("reused_linear_estimator_objects")
     how = case.get("how", "ctor")
+    projflag = np.bool_(proj) if case.get("npflag") else proj  # a flag that comes out of a NumPy comparison
+    if case.get("npflag"):
+        j.note("numpy_bool_flags")
     if how == "ctor":
-        est = OrthogonalRegression(use_orthogonal_projector=proj, linear_estimator=lin)
+        est = OrthogonalRegression(use_orthogonal_projector=projflag, linear_estimator=lin)
     else:
         # the class has no set_params: an existing object is re-configured by assigning its public attributes
         from sklearn.linear_model import Ridge as _Ridge
 
         est = OrthogonalRegression(use_orthogonal_projector=not proj, linear_estimator=_Ridge(alpha=50.0)) if how == "setattr_after_decoy" else OrthogonalRegression()
-        est.use_orthogonal_projector = proj
+        est.use_orthogonal_projector = projflag
         est.linear_estimator = lin
         j.note("configured_by_attribute_assignment")
     if case.get("many"):
@@ -169,6 +175,14 @@ def run(case, j):
         j.note("one_dimensional_targets")
     if case.get("units", [1.0, 1.0]) != [1.0, 1.0]:
         j.note("other_units")
+    if case.get("aborted_fit") and proj and lin is not None and case.get("past"):
+        # a failure in the history: the object was fitted before (other data); the fit on THESE data is aborted inside the
+        # user's linear estimator and then simply repeated with the very same arguments
+        from ..pc import _AbortableMixin
+
+        _AbortableMixin._armed[0] = True
+        forms.rejected(j, "fit aborted inside the linear estimator", est.fit, X, yin)
+        _AbortableMixin._armed[0] = False
     j.lib("fit", est.fit, X, yin)
     est = forms.carry(est, case.get("carry", "same"), j)  # what predicts afterwards may be a copy of what was fitted
     Om = np.asarray(est.coef_).T  # predict(x) = x_(padded) @ Om
@@ -176,8 +190,10 @@ def run(case, j):
     if not proj:
         j.note("padded_fits")
         mc = max(f, p)
-        j.ok("max_components_ == max(n_features, n_targets)", est.max_components_ == mc, (est.max_components_, f, p))
-        j.ok("coef_ is max(f,p)-square", Om.shape == (mc, mc), Om.shape)
+        j.ok("max_components_ == max(n_features, n_targets)", getattr(est, "max_components_", None) == mc, (getattr(est, "max_components_", None), f, p))
+        if not j.ok("coef_ is max(f,p)-square", Om.shape == (mc, mc), Om.shape):
+            j.sample = {"mode": "padded", "coef_shape": list(Om.shape)}
+            return
         j.close("Omega^T Omega == I (orthogonal)", Om.T @ Om, np.eye(mc), 1e-10)
         Xp = np.pad(X, [(0, 0), (0, mc - f)])
         yp = np.pad(y, [(0, 0), (0, mc - p)])
